@@ -172,6 +172,11 @@ func isZeroValue(rv reflect.Value) (bool, error) {
 		}
 
 		for _, f := range sD.fields {
+			// fields which are never encoded can't make the structure worth encoding
+			if f.tag == ANY_TAG || f.skip {
+				continue
+			}
+
 			isZero, err := isZeroValue(rv.FieldByIndex(f.idx))
 			if err != nil {
 				return false, err
